@@ -180,6 +180,18 @@ Theorem C17_build_refusal_carried_refuted :
 Proof. exact build_refusal_carried_refuted. Qed.
 Print Assumptions C17_build_refusal_carried_refuted.
 
+(* explicit inputs (CreateRawTransaction): nothing is selected; every input is looked up once per pass
+   (constructTxIn, EstimateManualTxFee without and with change).  While blocks are only connected, the
+   inputs of a successful call can all be looked up in the store of its last read transaction.
+   (With reorganisations in between the statement needs more than the three commits the check places:
+   an input that leaves the chain makes a later pass fail.) *)
+Theorem C17_manual_single_boundary_connects : forall nd rd ins rounds k1,
+  (forall j j' o, (j <= j')%nat -> lookup_ok nd (rd j) o = true -> lookup_ok nd (rd j') o = true) ->
+  manual_lookups nd rd (S rounds) 0 ins = (k1, true) ->
+  forall o, In o ins -> lookup_ok nd (rd (k1 - 1)%nat) o = true.
+Proof. exact manual_single_boundary_connects. Qed.
+Print Assumptions C17_manual_single_boundary_connects.
+
 (* every pair of conflicting accesses of the generated table shares a mutex (one side
    exclusively), or is ordered by the suspend/resume hand-shake, or its writer is one of the
    listed unprotected (variable, function) sites *)
